@@ -146,7 +146,8 @@ def check_c14(tier, seed, t0):
     agg["violations"] += hx["violations"]
     agg["samples"] += hx["samples"][:2]
     wx_into(agg, "C14", tier)
-    agg["distinct_nontrivial"] = o1["detail"]["boundary_values"] + (o1["detail"]["full_sweep_keys"] * len(o1["detail"]["full_sweep_generations"]))
+    d1 = (o1 or {}).get("detail", {})
+    agg["distinct_nontrivial"] = d1.get("boundary_values", 0) + (d1.get("full_sweep_keys", 0) * len(d1.get("full_sweep_generations", [])))
     agg["capped"] = False
     agg["rule"] = ("every (key, generation) value of the enumerated set is pushed through from_raw/raw, archetype_id, try_from/from_any/from_any_unchecked/into_any for three declared archetypes (ids 0, 7, 255), "
                    "the reference conversions, the Select* enums and Eq/Hash under two hashers; boundary set = all 256 archetype bytes x boundary positions x boundary generations (incl. 0, with the panicking conversions); "
